@@ -412,7 +412,6 @@ def gen_cases(tier, rng, pub, fam_rows, pfr_rows):
     cb21.append({"op": "cb21", "keys": [[k, "raw"] for k in ecc[521][:2]], "used": 0, "ca_flag": True})
     cb21.append({"op": "cb21", "keys": [[ecc[256][0], "raw"], [ecc[384][0], "raw"]], "used": 0, "ca_flag": True})
     cb21.append({"op": "cb21", "keys": [[k, "raw"] for k in ecc[256][:4] + ecc[256][:1]], "used": 0, "ca_flag": True})
-    cb21.append({"op": "cb21", "keys": [[ecc[256][0], "obj_cert_ca"]], "used": 0, "ca_flag": True})
     streams["CertBlockV21: calculate / rkth / flags / export / ISK signature / parse / re-export"] = cb21
     # ---- S6: PFR CMPA.export(keys=...): the same key sets for every family of one (RKHT class, register width) pair
     pfr = []
